@@ -192,8 +192,10 @@ func resolveWLGen(p *core.Program) (*wlGen, string) {
 				g.main = c
 			}
 			for _, in := range l.Header.Instrs {
-				if phi, ok := in.(*ssa.Phi); ok && strings.HasPrefix(phi.Type().String(), "[]") {
-					g.tsPhi = phi
+				if phi, ok := in.(*ssa.Phi); ok {
+					if _, isSlice := phi.Type().Underlying().(*types.Slice); isSlice {
+						g.tsPhi = phi
+					}
 				}
 			}
 		}
@@ -533,6 +535,12 @@ func checkSeparatorPerGap(p *core.Program, r *core.Report, g *wlGen, rule string
 		if !g.main.Loop.Blocks[gd.If.Block()] || gd.If.Block() == g.main.Loop.Header {
 			continue
 		}
+		// written in place: `if r.SeparatorFunc != nil { sep, _ = r.SeparatorFunc() }` (else SeparatorChar)
+		if _, merged := g.sepString(); merged {
+			if rel, ok := core.AsRel(gd); ok && rel.Op == token.NEQ && core.IsNilConst(rel.Y) && recipeField(rel.X, "SeparatorFunc") {
+				continue
+			}
+		}
 		ng++
 		if gapGuard(g, gd) != "" {
 			okG = true
@@ -564,20 +572,37 @@ func checkSeparatorPerGap(p *core.Program, r *core.Report, g *wlGen, rule string
 		}
 	} else if recipeField(g.sepCall.Call.Value, "SeparatorFunc") {
 		okSF = true
+		// it may be nil: then the call must be skipped and SeparatorChar used (checked by sepString/the guard above),
+		// or the call is unconditional and C13's non-nil obligation speaks
 	}
 	r.Check(okSF, rule, name, "the function called is the recipe's SeparatorFunc, or a closure returning (SeparatorChar, 0) when it is nil", pos, core.Describe(g.sepCall.Call.Value))
 	// string result: used only by len() and the separator token's value
-	var str ssa.Value
-	for _, ref := range core.Referrers(g.sepCall) {
-		if ex, ok := ref.(*ssa.Extract); ok && ex.Index == 0 {
-			str = ex
-		}
-	}
+	str, merged := g.sepString()
 	if str == nil {
 		r.Fail(rule, name, "separator string is used", pos, "")
 		return
 	}
 	okUses := true
+	if merged {
+		// the call's own result feeds nothing but the merge
+		for _, ref := range core.Referrers(str.(*ssa.Phi).Edges[0]) {
+			_ = ref
+		}
+		for _, ref := range core.Referrers(g.sepCall) {
+			if ex, ok := ref.(*ssa.Extract); ok && ex.Index == 0 {
+				for _, r2 := range core.Referrers(ex) {
+					switch r2.(type) {
+					case *ssa.Phi, *ssa.DebugRef:
+					default:
+						okUses = false
+					}
+					if ph, isPhi := r2.(*ssa.Phi); isPhi && ssa.Value(ph) != str {
+						okUses = false
+					}
+				}
+			}
+		}
+	}
 	for _, ref := range core.Referrers(str) {
 		switch x := ref.(type) {
 		case *ssa.Call:
@@ -605,6 +630,38 @@ func checkSeparatorPerGap(p *core.Program, r *core.Report, g *wlGen, rule string
 		}
 		r.Check(len(eff.Writes(fn)) == 0, rule, core.FuncName(fn), "separator closure keeps no state between calls", p.Pos(fn.Pos()), "")
 	}
+}
+
+// sepString: the separator string of this gap — the first result of the separator call, or, when the
+// choice between SeparatorFunc and SeparatorChar is written in place, the merge inside the loop body of
+// that result with a load of the recipe's SeparatorChar (taken when the call is skipped).
+func (g *wlGen) sepString() (ssa.Value, bool) {
+	if g.sepCall == nil {
+		return nil, false
+	}
+	var str ssa.Value
+	for _, ref := range core.Referrers(g.sepCall) {
+		if ex, ok := ref.(*ssa.Extract); ok && ex.Index == 0 {
+			str = ex
+		}
+	}
+	if str == nil {
+		return nil, false
+	}
+	for _, ref := range core.Referrers(str) {
+		phi, ok := ref.(*ssa.Phi)
+		if !ok || g.main == nil || !g.main.Loop.Blocks[phi.Block()] || phi.Block() == g.main.Loop.Header || len(phi.Edges) != 2 {
+			continue
+		}
+		other := phi.Edges[0]
+		if other == str {
+			other = phi.Edges[1]
+		}
+		if recipeField(other, "SeparatorChar") && recipeField(g.sepCall.Call.Value, "SeparatorFunc") {
+			return phi, true
+		}
+	}
+	return str, false
 }
 
 // closureReturnsField: closure returns (load recv.field, 0).
@@ -815,6 +872,9 @@ func runC05(p *core.Program, r *core.Report) {
 		okV := false
 		if ex, ok := s.value.(*ssa.Extract); ok && ex.Index == 0 && g.sepCall != nil && ex.Tuple == ssa.Value(g.sepCall) {
 			okV = true
+		}
+		if str, merged := g.sepString(); merged && s.value == str {
+			okV = true // SeparatorFunc's string, or SeparatorChar when there is no function
 		}
 		r.Check(okV, "R5.1b", name, "separator token's value is the string returned by this iteration's separator call", pos, core.Describe(s.value))
 		// guards: i < Length-1 and len(sep) > 0, nothing else
